@@ -91,6 +91,9 @@ def checkC12 (c : Ctx) : List String :=
       | _, _ => true
     | _ => false)
   let shared := c.table.any (fun e => !e.isPad && c.table.any (fun f => !f.isPad && f.infoHash != e.infoHash && f.fullTarget == e.fullTarget))
+  let twoFiles := c.table.any (fun e => !e.isPad && c.table.any (fun f => !f.isPad && f.id != e.id && f.fullTarget == e.fullTarget)
+      && c.obs.ops.any (fun o => o.kind.mutating && o.path == e.fullTarget))
+  (if twoFiles then ["c12-image-of-two-files"] else []) ++
   (if badOp then ["c12-op-path"] else []) ++ (if extraFile then ["c12-extra-file"] else []) ++
   (if extraDir then ["c12-extra-dir"] else []) ++ (if badLen then ["c12-length"] else []) ++
   (if shared then ["c12-shared-target"] else [])
